@@ -61,12 +61,13 @@ fn marker(op: u32, n: usize) -> Vec<u8> {
 async fn scenario(role: Role, rng: &mut Rng, ch: &mut dyn Choose) -> Outc {
     let app = App::new("c08");
     let mut cfg = ConnCfg::new(role);
-    cfg.max_send = 8;
+    // mostly a comfortable send window; a narrow one makes sends (also streamed ones) wait for it
+    cfg.max_send = *rng.pick(&[8u16, 8, 2, 1]);
     cfg.max_qos = 2;
     cfg.write_buf = Some((*rng.pick(&[128usize, 512, 16 * 1024]), 64));
     match role {
         Role::V5Server => cfg.peer_max_packet_size = Some(600),
-        Role::V5Client => cfg.connack_props = vec![crate::refcodec::Prop::U16(0x21, 8), crate::refcodec::Prop::U32(0x27, 600)],
+        Role::V5Client => cfg.connack_props = vec![crate::refcodec::Prop::U16(0x21, cfg.max_send), crate::refcodec::Prop::U32(0x27, 600)],
         _ => {}
     }
     let v5 = role.is_v5();
@@ -210,7 +211,9 @@ async fn scenario(role: Role, rng: &mut Rng, ch: &mut dyn Choose) -> Outc {
                 let res_cb: Rc<dyn Fn(usize, SinkRes)> = Rc::new(move |n, r| {
                     app2.log(Ev::SinkRet { op: id, n: n as u32 + 1000, res: r });
                 });
-                let spec = PubSpec::new("w/stream", vec![]);
+                // (the topic names the operation: a streamed send that reports "cancelled before
+                // it was started" must not have put its PUBLISH header on the wire)
+                let spec = PubSpec::new(&format!("w/stream/{id}"), vec![]);
                 if ch.chance(1, 3) {
                     match sink.stream_qos0(&spec, declared as u32, cmds.clone(), res_cb) {
                         Ok(w) => {
@@ -356,7 +359,7 @@ async fn scenario(role: Role, rng: &mut Rng, ch: &mut dyn Choose) -> Outc {
         }
     }
     // payload of completed streams
-    let wire_payloads: HashMap<Vec<u8>, usize> = app.wire().iter().filter_map(|(_, p)| if let R::Publish { topic, payload, .. } = p { (topic == "w/stream").then(|| payload.clone()) } else { None }).fold(HashMap::new(), |mut m, p| {
+    let wire_payloads: HashMap<Vec<u8>, usize> = app.wire().iter().filter_map(|(_, p)| if let R::Publish { topic, payload, .. } = p { topic.starts_with("w/stream/").then(|| payload.clone()) } else { None }).fold(HashMap::new(), |mut m, p| {
         *m.entry(p).or_insert(0) += 1;
         m
     });
@@ -364,9 +367,19 @@ async fn scenario(role: Role, rng: &mut Rng, ch: &mut dyn Choose) -> Outc {
         if c.peer.garbage.is_none() && !wire_payloads.contains_key(written) {
             // the stream may have been cut by the ending before it was flushed; only judge if a
             // later packet made it to the wire
-            let later = app.wire().iter().any(|(_, p)| matches!(p, R::Publish { topic, payload, .. } if topic == "w/stream" && payload.len() == written.len()));
+            let later = app.wire().iter().any(|(_, p)| matches!(p, R::Publish { topic, payload, .. } if topic.starts_with("w/stream/") && payload.len() == written.len()));
             if later {
                 o.violations.push(("payload of a streamed PUBLISH differs from the bytes the application wrote".into(), format!("stream op {op}, {} bytes", written.len())));
+            }
+        }
+    }
+    // a streamed send that was cancelled before it started has written nothing
+    for op in &ops {
+        if op.what == "stream-q1-ack" && matches!(op.result(), Some(SinkRes::ErrStreamingCancelled)) {
+            o.failing_ops_checked += 1;
+            let m = format!("w/stream/{}", op.id).into_bytes();
+            if c.peer.raw.windows(m.len()).any(|w| w == m.as_slice()) {
+                o.violations.push(("a streamed send that reported 'cancelled' left its PUBLISH header on the wire".into(), format!("{} -> {:?}", op.what, op.result())));
             }
         }
     }
